@@ -49,6 +49,9 @@ def sig(w, ret=None, world=False, name=None, pub=True, drop_generics=False, repl
     name: emit under another name (R10 monomorphised copies).
     replace_header: (R10) full replacement text for generic drivers; the original parameter
       names must still all occur in it."""
+    # R7: `const X: &str = ..` inside a fn body needs an explicit 'static inside verus! (a const reference is 'static anyway)
+    for hc in re.finditer(r"const\s+(\w+)\s*:\s*&str\s*=", w.mbody):
+        w.replace(hc.start(), hc.end(), "const %s: &'static str =" % hc.group(1), "R7", "explicit 'static on a local const &str")
     h = w.ex.header.strip()
     mh = lexer.mask(h)
     if replace_header is not None:
